@@ -255,12 +255,23 @@ theorem setPathMTop_noexpand (H : Hash) (src : Src) (m : MNode) (p : List Bool) 
     | some a => simp
   · rfl
 
-/-- gindex form of 3. (`setter` on a mixed tree), for every top node that is not a virtual leaf -/
+/-- gindex form of 3. (`setter` on a mixed tree): for EVERY top node (since the repair D15 a top-level virtual
+    leaf behaves like the materialised leaf) -/
 theorem setterM_mat {H : Hash} {src : Src} {m v : MNode} {n v' : Node} (e : Bool)
-    (h : Mat H src m n) (hv : Mat H src v v') (g : Nat)
-    (htop : e = false ∨ ∀ c, m = .virt c → src c ≠ none) :
+    (h : Mat H src m n) (hv : Mat H src v v') (g : Nat) :
     OptRel (Mat H src) (setterM H src m g e v) (setter H n g e v') := by
   unfold setterM setter
+  by_cases hg : g = 0
+  · simp [hg, OptRel]
+  · simp only [hg, if_false]
+    exact setPathM_rel e h hv _
+
+/-- the unrepaired `setter` agrees for every top node that is not a virtual leaf (and everywhere without `expand`) -/
+theorem setterMUnrepaired_mat {H : Hash} {src : Src} {m v : MNode} {n v' : Node} (e : Bool)
+    (h : Mat H src m n) (hv : Mat H src v v') (g : Nat)
+    (htop : e = false ∨ ∀ c, m = .virt c → src c ≠ none) :
+    OptRel (Mat H src) (setterMUnrepaired H src m g e v) (setter H n g e v') := by
+  unfold setterMUnrepaired setter
   by_cases hg : g = 0
   · simp [hg, OptRel]
   · simp only [hg, if_false]
